@@ -92,7 +92,7 @@ def make_pair(r, pa, pb, pat):
         if r.random() < 0.5: mb -= r.getrandbits(min(L, 40))
     elif pat == 'toppart':
         # the shorter operand is exactly the top limbs of the longer one (same exponent): the difference is the long low part
-        ma = rand_mant(r, max(pa, 192) + r.choice([0, 64, 130])); k = r.choice([64, 128, ma.bit_length() // 2, ma.bit_length() - 64]); k = min(k, ma.bit_length() - 1)
+        ma = rand_mant(r, max(pa, 192) + r.choice([0, 64, 130])); k = r.choice([64, 128, ma.bit_length() // 2, ma.bit_length() - 64]); k = max(1, min(k, ma.bit_length() - 1))
         mb = ma >> k; eb = ea + k
     elif pat == 'equal': mb = ma; eb = ea
     elif pat == 'lowzero': ma = (r.getrandbits(60) | 1) << (64 * r.randint(1, 4)); mb = (r.getrandbits(60) | 1) << (64 * r.randint(1, 4)); eb = ea + r.randint(-70, 70)
